@@ -35,7 +35,7 @@ LABELS = {"modified": "MOD", "added": "ADD:", "removed": "DEL:", "renamed": "REN
 DEFAULT_LABELS = {"modified": "", "added": "added:", "removed": "removed:", "renamed": "renamed:",
                   "copied": "copied:"}
 EVENTS = ["modified", "added", "deleted", "renamed", "renamed_changed", "copied", "mode",
-          "mode_changed", "binary", "empty", "renamed_binary", "conflict_at_top"]
+          "mode_changed", "binary", "empty", "renamed_binary", "conflict_at_top", "combined_binary"]
 
 
 def enc(s):
@@ -121,13 +121,17 @@ def make_section(event, shape, n, prefixes=("a/", "b/"), src="git", frag=""):
                  "+++ " + marker(pb, new), hh3, "++<<<<<<< HEAD", " +ours", "++=======", "+ theirs", "++>>>>>>> branch",
                  "  z"]
         spec["hunks"] = [frag]
+    elif event == "combined_binary":
+        # a binary file in a merge commit
+        lines = ["diff --cc %s" % withq("", old), "index 1111111,2222222..3333333", "Binary files differ"]
+        spec.update(addenda=["binary"])
     elif event == "renamed_binary":
         new = nm("", "%dR" % n)
         d = "diff --git %s %s" % (withq(pa, old), withq(pb, new))
         lines = [d, "similarity index 90%", "rename from " + (('"%s"' % old) if quoted else old),
                  "rename to " + (('"%s"' % new) if quoted else new), "index 1111111..2222222 100644",
                  "Binary files %s and %s differ" % (withq(pa, old), withq(pb, new))]
-        spec.update(label_key="renamed", new=new, addenda=[])
+        spec.update(label_key="renamed", new=new, addenda=[], must_mention="Binary")
     else:
         raise ValueError(event)
     return [enc(l) for l in lines], spec
@@ -195,7 +199,7 @@ class Headers(Problem):
     # model: (pending file header: section index n or None, headers seen for current section,
     #         pending hunk header fragment or None, hunk rows seen in section)
     def initial(self):
-        return ((0, None, 0), (None, 0, None, (0, 0)))
+        return ((0, None, 0), (None, 0, None, (0, 0), None))
 
     def _choices(self, n):
         if n >= self.max_sections:
@@ -224,8 +228,10 @@ class Headers(Problem):
         return mi is None or mi == "C" or i >= len(self.sec(mi, n)[0])
 
     def _rows(self, model, out, n, spec, own_hunk_line):
-        pend_file, nfile, pend_hunk, prev = model
+        pend_file, nfile, pend_hunk, prev, mention = model
         infos = obs.observe(out)
+        if mention and any(mention in info.row.text for info in infos):
+            mention = None
         i = 0
         hh_omitted = self.ocfg.get("hunk_omit")
         while i < len(infos):
@@ -273,7 +279,7 @@ class Headers(Problem):
                     raise ViolationError("hunk-row-before-hunk-header", "hunk row %r written "
                                          "before its hunk header" % info.text, observed=info.text)
             i += 1
-        return (pend_file, nfile, pend_hunk, prev)
+        return (pend_file, nfile, pend_hunk, prev, mention)
 
     def step(self, model, line, kind, out, ps):
         n, mi, i = ps
@@ -281,7 +287,7 @@ class Headers(Problem):
             # rows written while the commit block passes belong to the section before it (its pending header)
             return self._rows(model, out, n, None, False)
         lines, spec = self.sec(mi, n)
-        pend_file, nfile, pend_hunk, prev = model
+        pend_file, nfile, pend_hunk, prev, mention = model
         if kind == "first":
             # a new section starts: the previous section's header must be out by the end of
             # this step at the latest (delta writes lazily pending headers now)
@@ -289,22 +295,25 @@ class Headers(Problem):
             pend_file_prev = pend_file
             # rows written in this step belong to the previous section
             nfile = nfile + max(0, prev[0] - prev[1])
-            m2 = self._rows((pend_file, nfile, pend_hunk, (0, 0)), out, n - 1, None, False)
+            m2 = self._rows((pend_file, nfile, pend_hunk, (0, 0), mention), out, n - 1, None, False)
+            if m2[4]:
+                raise ViolationError("binary-not-reported", "the previous section (a renamed and modified binary file) "
+                                     "is shown without any mention that the file is binary", expected=m2[4])
             if m2[0] is not None and not self.ocfg.get("file_omit"):
                 raise ViolationError("missing-file-header:" + m2[0][1]["event"],
                                      "section %d (%s) got no file header before the next section "
                                      "started" % (m2[0][0], m2[0][1]["event"]),
                                      expected=m2[0][1]["old"])
-            return ((n, spec), m2[1], None, (0, 0))
+            return ((n, spec), m2[1], None, (0, 0), spec.get("must_mention"))
         is_hh = line.startswith(b"@@")
         hunk_line = (not is_hh) and spec["hunks"] and line[:1] in (b" ", b"-", b"+") and \
             not line.startswith((b"--- ", b"+++ "))
         if is_hh:
             frag = line.split(b"@@", 2)[2].lstrip(b"@").strip().decode("utf-8") if line.count(b"@@") >= 2 else ""
-            model = (pend_file, nfile, frag, prev)
+            model = (pend_file, nfile, frag, prev, mention)
             return self._rows(model, out, n, spec, False)
         if hunk_line:
-            model = (pend_file, nfile, pend_hunk, (prev[0] + 1, prev[1]))
+            model = (pend_file, nfile, pend_hunk, (prev[0] + 1, prev[1]), mention)
         return self._rows(model, out, n, spec, hunk_line)
 
     def eof(self, model, out, ps):
@@ -313,14 +322,17 @@ class Headers(Problem):
             return
         spec = None if mi == "C" else self.sec(mi, n)[1]
         m2 = self._rows(model, out, n, spec, False)
+        if m2[4]:
+            raise ViolationError("binary-not-reported", "the last section (a renamed and modified binary file) is shown "
+                                 "without any mention that the file is binary", expected=m2[4])
         if m2[0] is not None and not self.ocfg.get("file_omit"):
             raise ViolationError("missing-file-header:" + m2[0][1]["event"],
                                  "section %d (%s) got no file header by end of input"
                                  % (m2[0][0], m2[0][1]["event"]), expected=m2[0][1]["old"])
 
     def model_key(self, model):
-        pend_file, nfile, pend_hunk, prev = model
-        return (pend_file[0] if pend_file else None, pend_hunk, nfile, prev[0] - prev[1])
+        pend_file, nfile, pend_hunk, prev, mention = model
+        return (pend_file[0] if pend_file else None, pend_hunk, nfile, prev[0] - prev[1], mention)
 
 
 LABEL_OPTS = {"file-modified-label": LABELS["modified"], "file-added-label": LABELS["added"],
